@@ -52,18 +52,19 @@ META = {
 
 FILL = "x" * 6000
 NOASLR = ["setarch", platform.machine() or "x86_64", "-R"]
+STACK = ["--cfg=contexts/stack-size:256"]     # KiB; the default 8 MiB stacks cost seconds per run once MALLOC_PERTURB_ fills them
 
 
 def layouts(flavour, seed_of):
     """[(name, prefix command, env, padseed, engine flags)] for a flavour."""
     if flavour == "hooks":
         return [
-            ("aslr", [], {}, 0, []),
+            ("aslr", [], {}, 0, STACK),
             ("aslr+pad", [], {"VERIF_ENV_FILL": FILL, "MALLOC_PERTURB_": "165", "GLIBC_TUNABLES": "glibc.malloc.tcache_count=0"},
-             1 + seed_of(1) % 100000, []),
-            ("noaslr", NOASLR, {}, 0, []),
+             1 + seed_of(1) % 100000, STACK),
+            ("noaslr", NOASLR, {}, 0, STACK),
             ("noaslr+pad", NOASLR, {"MALLOC_PERTURB_": "90", "MALLOC_MMAP_THRESHOLD_": "4096", "MALLOC_TOP_PAD_": "1048576"},
-             1 + seed_of(2) % 100000, []),
+             1 + seed_of(2) % 100000, STACK),
         ]
     return [
         ("asan", [], {}, 0, ["--cfg=contexts/factory:thread"]),
